@@ -328,3 +328,55 @@ Definition step_skeleton (us : list update) : list effect :=
 
 (* ocaml/common/util.ml mentions the extracted type [z] *)
 Definition engine_unused_z : BinNums.Z := BinNums.Z0.
+
+(* ------------------------------------------------------------------ *)
+(* what SaveRaftState must make durable: the fsync decision of the two stores.
+   Tan (internal/tan/db.go db.write): the record is always written, the log file is fsynced
+   only when the update carries a snapshot, entries, or a State that differs from the last
+   WRITTEN State in one of the GENERATED fields [tan_sync_fields]. A record that was written
+   but not fsynced is lost by a power cut (until a later fsync of the same file). Pebble
+   (internal/logdb/kv/pebble): every write batch is committed with the GENERATED option
+   [pebble_write_sync]. *)
+
+Definition sfield_get (f : sfield) (s : hstate) : N :=
+  match f with SfTerm => hs_term s | SfVote => hs_vote s | SfCommit => hs_commit s end.
+Definition state_sync_change (fields : list sfield) (a b : hstate) : bool :=
+  existsb (fun f => negb (sfield_get f a =? sfield_get f b)) fields.
+Definition hstate_eqb (a b : hstate) : bool :=
+  (hs_term a =? hs_term b) && (hs_vote a =? hs_vote b) && (hs_commit a =? hs_commit b).
+
+Record tan_db := mkTan {
+  td_cache : hstate;       (* nodeStates: the State of the last written update (may be empty) *)
+  td_written : image;      (* what the log file holds, page cache included *)
+  td_synced : image }.     (* what survives a power cut now *)
+
+Definition tan_sync_needed (st : hstate) (u : update) : bool :=
+  (tan_sync_on_snapshot && negb (u_snap_index u =? 0)) ||
+  (tan_sync_on_entries && match u_save u with [] => false | _ => true end) ||
+  (tan_sync_on_state_change && state_sync_change tan_sync_fields (u_state u) st).
+
+(* db.write + the sync SaveRaftState issues before it returns; result: new db, synced? *)
+Definition tan_write (d : tan_db) (u : update) : tan_db * bool :=
+  let st := td_cache d in
+  if hstate_eqb (u_state u) st && (u_snap_index u =? 0) &&
+     match u_save u with [] => true | _ => false end
+  then (d, false)
+  else
+    let sync := tan_sync_needed st u in
+    let w := persist_update (td_written d) u in
+    (mkTan (u_state u) w (if sync then w else td_synced d), sync).
+
+Definition tan_run (d : tan_db) (us : list update) : tan_db :=
+  fold_left (fun d u => fst (tan_write d u)) us d.
+
+Definition tan_open (img : image) : tan_db :=
+  mkTan (mkHS (i_term img) (i_vote img) (i_commit img)) img img.
+
+(* a State the raft core hands out is empty or has a term (terms start at 1) *)
+Definition state_wf (u : update) : bool :=
+  is_empty_state (u_state u) || negb (hs_term (u_state u) =? 0).
+
+(* the parts of an image a message can make a claim about *)
+Definition same_claims (a b : image) : Prop :=
+  i_term a = i_term b /\ i_vote a = i_vote b /\ i_log a = i_log b /\
+  i_snap_index a = i_snap_index b /\ i_snap_term a = i_snap_term b.
